@@ -109,10 +109,10 @@ class Cons:
 
 
 def _char_lit(cp):
-    if 32 <= cp < 127 and cp != 34:
+    if 32 <= cp < 127 and cp not in (34, 39):
         return '"%s"' % chr(cp)
-    # quadruple form {group,plane,row,cell}
-    return "{%d,%d,%d,%d}" % ((cp >> 24) & 0xff, (cp >> 16) & 0xff, (cp >> 8) & 0xff, cp & 0xff)
+    # quadruple form {group, plane, row, cell}
+    return "{%d, %d, %d, %d}" % ((cp >> 24) & 0xff, (cp >> 16) & 0xff, (cp >> 8) & 0xff, cp & 0xff)
 
 
 class Member:
